@@ -111,6 +111,8 @@ Calls(s) ==
   \cup (IF "loglevel" \in Fams THEN LogCalls ELSE {})
   \cup (IF "grow" \in Fams THEN GrowCalls ELSE {})
   \cup (IF "marshal" \in Fams THEN MarshalCalls ELSE {})
+  \* the second decoding branch: a CONDITION row handed to an initialised receiver (ONE new Condition element)
+  \cup (IF "marshal" \in Fams /\ s.live THEN {[op |-> "Marshal", kind |-> "CONDITION", xs |-> <<"k", "v">>]} ELSE {})
   \cup (IF "opts" \in Fams THEN OptCalls ELSE {})
   \cup (IF "policy" \in Fams THEN PolCalls ELSE {})
   \cup (IF "life" \in Fams THEN LifeCalls ELSE {})
